@@ -73,8 +73,16 @@ class World:
                     self.frames.append((t, f))
                 self._raw = rest
         self.ep.t.take()
-        if self.ep.drop_requested and self.drop_time is None:
+        if self.drop_effective() and self.drop_time is None:
             self.drop_time = self.ep.t.close_time
+
+    def drop_effective(self):
+        """has the endpoint ended the connection?  With a peer that has stopped reading (self.stalled) what we wrote is still in the send buffer, and a
+        graceful close (Twisted loseConnection / asyncio close) waits for that buffer to drain: only an abort ends the connection then"""
+        dr = self.ep.drop_requested
+        if dr and getattr(self, "stalled", False) and dr != "abort":
+            return None
+        return dr
 
     def handshake(self):
         from harness import wsutil
@@ -129,7 +137,7 @@ class World:
             except Exception as e:
                 raise Violation("C17|exception-in-timer|" + exc_key(e), repr(e), self.c)
             self.collect()
-            if self.ep.drop_requested and not self.ep.loss_delivered:
+            if self.drop_effective() and not self.ep.loss_delivered:
                 self.ep.deliver_loss("aborted" if self.ep.drop_requested == "abort" else "done")
                 self.d.settle()
                 self.collect()
@@ -239,6 +247,8 @@ def sc_open(c):
         w.advance_to(arm + delay)
         if not w.ep.loss_delivered:
             w.handshake()
+    if delay is None:
+        w.stalled = bool(c.get("stalled"))
     w.advance_to(arm + T + 3)
     if verdict is False and delay is None:
         expect_dropped(w, arm, T, "opening handshake timeout", "open")
@@ -276,6 +286,8 @@ def sc_close(c):
         t1 = None
     tag = "close/" + c["p1"]
     if T > 0 and verdict is False:
+        if delay is None:
+            w.stalled = bool(c.get("stalled"))
         w.advance_to(t0 + T + 2)
         expect_dropped(w, t0, T, "closing handshake timeout", "close")
         w.finish()
@@ -395,6 +407,8 @@ def sc_ping(c):
             if verdict is True:
                 w.advance_answering(tp + T + 1.5, seen_pings)     # later pings are answered at once: only this round's timer is judged
             else:
+                if delay is None:
+                    w.stalled = bool(c.get("stalled"))
                 w.advance_to(tp + T + 1.5)
             if verdict is False:
                 expect_dropped(w, tp, T, "ping timeout", "ping" + ("|data-counted-although-only-pongs-do" if data_does_not_count else ""))
@@ -467,6 +481,7 @@ def sc_ping_outstanding_then_close(c):
     w.collect()
     if silent:
         # starting the closing handshake does not release the peer from answering the ping that is already out: dropped by that ping's deadline
+        w.stalled = bool(c.get("stalled"))
         w.advance_to(tp + T + 1.5)
         expect_dropped(w, tp, T, "ping timeout", "ping-then-close")
         w.finish()
@@ -508,7 +523,7 @@ def strategy():
         c = {"sc": sc, "server": draw(st.booleans()), "offset": draw(st.sampled_from([0.0, 0.25, 0.5, 0.75, 0.999, 3.3])),
              "open_to": draw(grid), "close_to": draw(grid), "drop_to": draw(grid), "ping_iv": 0, "ping_to": 0, "restart": draw(st.booleans()),
              "p1": draw(pos), "p2": draw(pos), "idle": draw(st.sampled_from([0.0, 0.4, 1.7])), "rounds": draw(st.integers(1, 4)), "frac": draw(st.sampled_from([0.0, 0.5, 1.0])),
-             "answer": draw(st.sampled_from(["pong", "data", "data+pong"])), "initiator": draw(st.sampled_from(["local", "peer"]))}
+             "answer": draw(st.sampled_from(["pong", "data", "data+pong"])), "stalled": draw(st.booleans()), "initiator": draw(st.sampled_from(["local", "peer"]))}
         if sc in ("ping", "ping-while-closing", "ping-then-close") or draw(st.integers(0, 3)) == 0:
             c["ping_iv"] = draw(st.sampled_from([1, 2, 5] if sc != "close" else [5]))
             c["ping_to"] = draw(st.sampled_from(GRID if sc == "ping" else [1, 2, 5]))
